@@ -350,7 +350,26 @@ def pf_ext_transport(D, T=3, take=(0, 2), eff=0.5):
     return Shape(pf, tg, prices_for(D, ['p', 'q'], T))
 
 
-PORTFOLIOS = dict(contract_storage=pf_contract_storage, two_node=pf_two_node, multicommodity=pf_multicommodity,
+def pf_names(D, T=3, names=('1x', 'x'), node_names=('A',), order=None, storage=False):
+    """contracts with chosen (adversarial) names on chosen node names; optional permutation of the asset list"""
+    eao = lift.import_eao()
+    tg = grid(T)
+    nds = nodes(*node_names)
+    assets = []
+    for i, nm in enumerate(names):
+        assets.append(mk_market(D, nm, nds[i % len(nds)], T, 'p%d' % (i % 2), ec=(i == 0)))
+    if storage:
+        assets.append(mk_storage(D, 'sto', nds[-1], eff=0.75))
+    if len(nds) > 1:
+        for j in range(len(nds) - 1):
+            assets.append(mk_transport(D, 'tr%d' % j, nds[j], nds[j + 1], eff=0.5))
+    if order is not None:
+        assets = [assets[i] for i in order]
+    pf = eao.portfolio.Portfolio(assets)
+    return Shape(pf, tg, prices_for(D, ['p0', 'p1'], T))
+
+
+PORTFOLIOS = dict(names=pf_names, contract_storage=pf_contract_storage, two_node=pf_two_node, multicommodity=pf_multicommodity,
                   contract_take=pf_contract_take, plant=pf_plant, coarse=pf_coarse, periodic=pf_periodic,
                   orderbook=pf_orderbook, scaled=pf_scaled, structured=pf_structured, ext_transport=pf_ext_transport)
 
